@@ -14,11 +14,13 @@ ASSUMPTIONS = [
     "job-store writes of the block-end transitions do not fail (local LevelDB of the node); the node-local inputs (witness flag, "
     "validator address, presence of the broadcast job) are explicit parameters and the theorems hold for all of them",
     "authorisation of the signer of a finality report is C04's subject: the theorems count a vote by WHO the report says the validator is",
-    "ERC-20 lock/redeem handlers (ext_ERC20Lock.go, ext_ERC20redeem.go) are not modelled: tracker types 3/4 never arise in the model",
+    "ERC-20: only runERC20Lock's effect on the tracker stores is modelled (do_lock_erc, outside op/step); the ERC-20 mint/burn side and "
+    "ext_ERC20redeem.go are not; that part is tied to the code by two scripted scenarios on the real application (`vh c15 -erc20`), not by generated runs",
     "redeem byte strings that make ParseRedeem panic (no selector inside) and negative vote indices are never submitted by the harness "
     "(both crash the real node: C18's subject); the model returns Crash for the negative index",
 ]
 
+ERC_TRIGGER = "C15.erc20_lock_no_existence_check"
 TRIGGERS = {2: "C15.supply_address_transacts"}   # C15.mint_to_report_locker is fixed (/repo b01fdf0): its witness is corpus case 0, expected to hold
 CHECKS = {1: "one tracker per external transaction name across the three stores",
           2: "supply counter = wrapped tokens in circulation",
@@ -98,6 +100,41 @@ def judge(ctx, cases, mm, sv):
     return found
 
 
+def erc20_probe(ctx, vh):
+    """The two ERC-20 lock resubmission scenarios on the real application (runERC20Lock has no existence check).
+    Outcome per scenario: 'holds' (resubmission refused, one mint to the first submitter), 'defect' (exactly the recorded
+    effect of the known finding, which is also what do_lock_erc in Tracker.v predicts for the stores), anything else = violation."""
+    out = os.path.join(ctx.scratch, "c15_erc20.json")
+    rc, log = sh([vh, "c15", "-erc20", out], timeout=600)
+    if rc != 0:
+        raise Broken("C15 ERC-20 probe failed to run", log[-2000:])
+    scs = json.load(open(out))
+    res = {}
+    for tag, sc in zip("AB", scs):
+        steps = sc["steps"]
+        relock = [i for i, s in enumerate(steps) if "SAME external tx" in s["do"]][0]
+        r, fin = steps[relock], sc["final_ttc"]
+        if not r["ok"]:
+            ok = fin == {"acct1": "100", "acct2": "0", "acct99": "100"}
+            res[tag] = "holds" if ok else "other"
+        elif tag == "A":
+            model_stores = len(r["ongoing"] or []) == 1 and len(r["passed"] or []) == 1 and sum(r["ongoing"][0]["Votes"]) == 0
+            res[tag] = "defect" if model_stores and fin == {"acct1": "200", "acct2": "0", "acct99": "200"} else "other"
+        else:
+            on = r["ongoing"] or []
+            model_stores = len(on) == 1 and on[0]["Owner"] == 2 and sum(on[0]["Votes"]) == 0
+            res[tag] = "defect" if model_stores and fin == {"acct1": "0", "acct2": "100", "acct99": "100"} else "other"
+    ctx.coverage["erc20_probe"] = {t: {"outcome": res[t], "scenario": sc["scenario"], "final_ttc": sc["final_ttc"]} for t, sc in zip("AB", scs)}
+    for tag, sc in zip("AB", scs):
+        if res[tag] == "holds":
+            continue
+        if res[tag] == "defect" and ctx.known_finding(ERC_TRIGGER, ""):
+            continue
+        ctx.violation("erc20_%s" % tag, {"kind": "erc20probe", "scenario": sc, "outcome": res[tag],
+                                         "how": "./check replay <this file> (re-runs `vh c15 -erc20` on the current tree)"})
+    return res
+
+
 def run(ctx):
     broken = None
     try:
@@ -145,6 +182,7 @@ def run(ctx):
                        "states; findings inside a Coq-defined trigger region with the recorded effect signature are known findings, anything else a violation; "
                        "corpus case 0 is the lying-witness history of the repaired defect C15.mint_to_report_locker and must satisfy every check",
     })
+    erc20_probe(ctx, vh)
     judge(ctx, cases, mm, sv)
     if broken is not None and ctx.violations == 0:
         raise broken
@@ -155,6 +193,9 @@ def replay(ctx, rp):
     ok, log = common.coq_make(["theories/TrackerCheck.vo"])
     if not ok:
         raise Broken("model does not build", log[-2000:])
+    if rp.get("kind") == "erc20probe":
+        print("erc20 probe outcome per scenario:", erc20_probe(ctx, vh))
+        return
     tmp = os.path.join(ctx.scratch, "one.json")
     SCRIPTS[:] = [rp["script"]] if "script" in rp else []
     if rp.get("kind") == "script" or "script" in rp:
